@@ -15,6 +15,7 @@ RULE = (
     "seeded contexts (1-3 arrays, zero-sized and zero-rank included, dtypes from the shared categories bool / int8-64 / uint8-64 / "
     "float16-64, 0-1 perturbations) re-run under ALL 3^n assignments of a library in {numpy, torch, jax} to their arrays, directly and "
     "through a dltyped function; verdict and report (dtype spelled as category) must be identical across the assignments. "
+    "plus a fresh-interpreter pass: every class x shared dtype x library in three library orders, and jax arrays as they appear under jit / make_jaxpr. "
     "non-trivial = distinct context with >=2 arrays"
 )
 
@@ -101,6 +102,30 @@ for n in sorted(names):
                 v.append((lib, shape, r))
         rows[dt] = v
     out[n] = rows
+# the same arrays as they appear while jax traces a function (jit / make_jaxpr): still jax arrays of that shape and dtype
+from typing import Annotated
+@dltype.dltyped()
+def fj(x: Annotated[jax.Array, dltype.FloatTensor["a b"]], y: Annotated[jax.Array, dltype.FloatTensor["b c"]]) -> Annotated[jax.Array, dltype.FloatTensor["a c"]]:
+    return jax.numpy.zeros((x.shape[0], y.shape[1]), dtype=x.dtype)
+@dltype.dltyped()
+def fm(x: Annotated[np.ndarray, dltype.FloatTensor["a b"]], y: Annotated[jax.Array, dltype.IntTensor["b"]]) -> None:
+    return None
+def verdict(f, *a):
+    try:
+        f(*a); return "ok"
+    except dltype.DLTypeError as e:
+        return type(e).__name__
+    except Exception as e:
+        return "EXC " + type(e).__name__
+traced = []
+if order == [0, 1, 2]:
+    for sx, sy, dt in (((2, 3), (3, 4), "float32"), ((2, 3), (4, 4), "float32"), ((0, 3), (3, 0), "float16"), ((2,), (3, 4), "float32"), ((2, 3), (3, 4), "int32")):
+        x, y = mk(2, dt, sx), mk(2, dt, sy)
+        traced.append([f"fj {dt} {sx} {sy}", verdict(fj, x, y), verdict(jax.jit(fj), x, y), verdict(jax.make_jaxpr(fj), x, y)])
+    for sy, dt in (((3,), "int32"), ((4,), "int32"), ((3,), "float32")):
+        xn, y = mk(0, "float32", (2, 3)), mk(2, dt, sy)
+        traced.append([f"fm numpy+traced {dt} {sy}", verdict(fm, xn, y), verdict(jax.jit(lambda yy: fm(xn, yy)), y), verdict(jax.make_jaxpr(lambda yy: fm(xn, yy)), y)])
+out["__traced__"] = traced
 print(json.dumps(out))
 '''
 
@@ -125,6 +150,11 @@ def custom(run, tier):
             run.findings.append(Finding("failing-input", "first-contact interpreter failed: " + (r.stderr.strip().splitlines()[-1][:200] if r.stderr.strip() else f"rc={r.returncode}"),
                                         Case(f"FIRSTCONTACT\torder={order}", "first")))
             continue
+        for desc, eager, jit, jaxpr in res.pop("__traced__", []):
+            n += 3
+            if not (eager == jit == jaxpr):
+                run.findings.append(Finding("failing-input", f"the verdict for jax arrays depends on whether jax is tracing the function: eager={eager}, under jit={jit}, under make_jaxpr={jaxpr} ({desc})",
+                                            Case(f"TRACED\t{desc}", "traced"), f"{eager}/{jit}/{jaxpr}"))
         for cls, rows in res.items():
             for dt, v in rows.items():
                 by_shape = {}
